@@ -14,7 +14,8 @@ ToSet(s) == {s[i] : i \in DOMAIN s}
 \* JSON step -> step record
 Rec(x, pre) == [a |-> x.a, n |-> x.n, d |-> x.d, k |-> x.k, pre |-> pre, post |-> x.post,
                 pubs |-> x.pubs, ipubs |-> x.ipubs, push |-> x.push, fails |-> ToSet(x.fails),
-                err |-> x.err, iso |-> x.iso, snapchg |-> x.snapchg, user |-> x.user, nfail |-> x.nfail]
+                err |-> x.err, iso |-> x.iso, snapchg |-> x.snapchg, user |-> x.user, nfail |-> x.nfail,
+                nonadm |-> x.nonadm, procchg |-> x.procchg]
 
 Init == /\ ti \in 1..Len(Traces)
         /\ k = 0
